@@ -1,2 +1,56 @@
+//! rustpython_format ops: format spec (C18), printf-style (C19), str.format templates (C20).
+use crate::dump::jstr;
+use crate::{req_bool, req_bytes, req_f64, req_str};
+use rustpython_ast::bigint::BigInt;
+use rustpython_format::{CharLen, FormatSpec};
 use serde_json::Value;
-pub fn dispatch(_op: &str, _req: &Value) -> Option<String> { None }
+use std::ops::Deref;
+use std::str::FromStr;
+
+struct UStr<'a>(&'a str);
+impl CharLen for UStr<'_> {
+    fn char_len(&self) -> usize {
+        self.0.chars().count()
+    }
+}
+impl Deref for UStr<'_> {
+    type Target = str;
+    fn deref(&self) -> &str {
+        self.0
+    }
+}
+
+fn res<E: std::fmt::Debug>(r: Result<String, E>) -> String {
+    match r {
+        Ok(s) => format!("{{\"ok\":{}}}", jstr(&s)),
+        Err(e) => format!("{{\"err\":{}}}", jstr(&format!("{:?}", e))),
+    }
+}
+
+pub fn dispatch(op: &str, req: &Value) -> Option<String> {
+    Some(match op {
+        "format_spec" => {
+            let spec = req_str(req, "spec");
+            let parsed = if req_bool(req, "via_from_str") { FormatSpec::from_str(spec) } else { FormatSpec::parse(spec) };
+            match parsed {
+                Err(e) => format!("{{\"err\":{},\"stage\":\"parse\"}}", jstr(&format!("{:?}", e))),
+                Ok(fs) => match req_str(req, "kind") {
+                    "int" => {
+                        let v = BigInt::from_str(req_str(req, "value")).unwrap();
+                        res(fs.format_int(&v))
+                    }
+                    "float" => res(fs.format_float(req_f64(req, "value"))),
+                    "bool" => res(fs.format_bool(req_bool(req, "value"))),
+                    _ => res(fs.format_string(&UStr(req_str(req, "value")))),
+                },
+            }
+        }
+        _ => {
+            let _ = req_bytes;
+            if let Some(r) = crate::ops_format2::dispatch(op, req) {
+                return Some(r);
+            }
+            return None;
+        }
+    })
+}
